@@ -21,6 +21,7 @@ import (
 	chain "github.com/comdex-official/comdex/app"
 	assettypes "github.com/comdex-official/comdex/x/asset/types"
 	auctionsV2types "github.com/comdex-official/comdex/x/auctionsV2/types"
+	esmtypes "github.com/comdex-official/comdex/x/esm/types"
 	lendtypes "github.com/comdex-official/comdex/x/lend/types"
 	liqV2types "github.com/comdex-official/comdex/x/liquidationsV2/types"
 	markettypes "github.com/comdex-official/comdex/x/market/types"
@@ -283,12 +284,13 @@ func (e *c08Env) cfgLines() {
 	tr.Line("lend.init", e.state()...)
 }
 
-// state returns the six projection fields: counters, lends, borrows, totals, balances, prices.
+// state returns the nine projection fields: counters and block time, lends, borrows, totals, balances, prices, emergency flags,
+// accrual state of the borrows, accrual state of the lends.
 func (e *c08Env) state() []string {
 	ctx, k := e.ctx, e.app.LendKeeper
 	var ls, bs, ss, ks, ps []string
 	for _, l := range k.GetAllLend(ctx) {
-		ls = append(ls, strings.Join([]string{u(l.ID), u(e.userNum[l.Owner]), u(l.PoolID), u(l.AssetID), l.AmountIn.Amount.String(), l.AvailableToBorrow.String()}, ":"))
+		ls = append(ls, strings.Join([]string{u(l.ID), u(e.userNum[l.Owner]), u(l.PoolID), u(l.AssetID), l.AmountIn.Amount.String(), l.AvailableToBorrow.String(), u(l.AppID)}, ":"))
 	}
 	for _, b := range k.GetAllBorrow(ctx) {
 		res := "0"
@@ -321,21 +323,68 @@ func (e *c08Env) state() []string {
 			ps = append(ps, u(id)+":"+u(twa.Twa))
 		}
 	}
-	return []string{u(k.GetUserLendIDCounter(ctx)) + "," + u(k.GetUserBorrowIDCounter(ctx)), strings.Join(ls, "|"), strings.Join(bs, "|"), strings.Join(ss, "|"), strings.Join(ks, "|"), strings.Join(ps, "|")}
+	// emergency flags: apps whose kill switch is on / pools listed in the depreciation record
+	var killed, dep []uint64
+	apps, _ := e.app.AssetKeeper.GetApps(ctx)
+	for _, a := range apps {
+		if ks, found := e.app.EsmKeeper.GetKillSwitchData(ctx, a.Id); found && ks.BreakerEnable {
+			killed = append(killed, a.Id)
+		}
+	}
+	if rec, found := k.GetPoolDepreciateRecords(ctx); found {
+		seen := map[uint64]bool{}
+		for _, d := range rec.IndividualPoolDepreciate {
+			if !seen[d.PoolID] {
+				seen[d.PoolID] = true
+				dep = append(dep, d.PoolID)
+			}
+		}
+	}
+	sort.Slice(killed, func(i, j int) bool { return killed[i] < killed[j] })
+	sort.Slice(dep, func(i, j int) bool { return dep[i] < dep[j] })
+	// accrual state of every position: indices, last interaction time (Unix), stable rate / fractional reward tracker
+	var ab, al []string
+	for _, b := range k.GetAllBorrow(ctx) {
+		ab = append(ab, strings.Join([]string{u(b.ID), b.GlobalIndex.BigInt().String(), b.ReserveGlobalIndex.BigInt().String(), i64(b.LastInteractionTime.Unix()), b.StableBorrowRate.BigInt().String()}, ":"))
+	}
+	for _, l := range k.GetAllLend(ctx) {
+		trk := "0"
+		if tr, found := k.GetLendRewardTracker(ctx, l.ID); found {
+			trk = tr.RewardsAccumulated.BigInt().String()
+		}
+		al = append(al, strings.Join([]string{u(l.ID), l.GlobalIndex.BigInt().String(), i64(l.LastInteractionTime.Unix()), trk}, ":"))
+	}
+	return []string{u(k.GetUserLendIDCounter(ctx)) + "," + u(k.GetUserBorrowIDCounter(ctx)) + "," + i64(ctx.BlockTime().Unix()), strings.Join(ls, "|"), strings.Join(bs, "|"), strings.Join(ss, "|"), strings.Join(ks, "|"), strings.Join(ps, "|"), joinU(killed) + "/" + joinU(dep), strings.Join(ab, "|"), strings.Join(al, "|")}
 }
 
 // ---------------------------------------------------------------------------------------------- external values
 
 // reward returns newInterestPerInteraction of IterateLends (iter.go:12-40) for the lend on the given context.
 func (e *c08Env) reward(ctx sdk.Context, lendID uint64) sdk.Int {
+	r, _ := e.rewardRate(ctx, lendID)
+	return r
+}
+
+// rewardStr is the external input of a lend accrual as printed in the trace: `reward:lendAPR` — the reward is cross-checked, the
+// APR (a rate: property C18) is what the model consumes to recompute it.
+func (e *c08Env) rewardStr(ctx sdk.Context, lendID uint64) string {
+	r, apr := e.rewardRate(ctx, lendID)
+	return r.String() + ":" + apr.BigInt().String()
+}
+
+func (e *c08Env) rewardRate(ctx sdk.Context, lendID uint64) (sdk.Int, sdk.Dec) {
 	k := e.app.LendKeeper
 	r := sdk.ZeroInt()
+	rate := sdk.ZeroDec()
 	try(func() {
 		lend, found := k.GetLend(ctx, lendID)
 		if !found {
 			return
 		}
 		apr, _ := k.GetLendAPRByAssetIDAndPoolID(ctx, lend.PoolID, lend.AssetID)
+		if !apr.IsNil() {
+			rate = apr
+		}
 		per, _, _ := k.CalculateLendReward(ctx, lend.AmountIn.Amount.String(), apr, lend)
 		acc := per
 		if tr, found := k.GetLendRewardTracker(ctx, lendID); found {
@@ -345,17 +394,30 @@ func (e *c08Env) reward(ctx sdk.Context, lendID uint64) sdk.Int {
 			r = acc.TruncateInt()
 		}
 	})
-	return r
+	return r, rate
 }
 
 // extB runs the real IterateBorrow on ctx (the caller passes a throw-away or a running cache) and reports the
-// increments it applied to InterestAccumulated and to the reserve-pool tracker; "-" when it returned an error, "!" when it panicked.
+// increments it applied to InterestAccumulated and to the reserve-pool tracker, followed by the two RATES it used (borrow APR, reserve
+// rate — inputs of the model's own accrual computation): `dI:dR:apr:rr`; "-" when it returned an error, "!:apr:rr" when it panicked.
 func (e *c08Env) extB(ctx sdk.Context, borrowID uint64) string {
 	k := e.app.LendKeeper
 	before, found := k.GetBorrow(ctx, borrowID)
 	if !found {
 		return "-"
 	}
+	// the rates IterateBorrow is about to use (exported, read-only): reserve rate (its failure is IterateBorrow's error) and borrow APR
+	pair, _ := k.GetLendPair(ctx, before.PairID)
+	var rr, apr sdk.Dec
+	var rerr error
+	if p, _ := try(func() {
+		rr, rerr = k.GetReserveRate(ctx, pair.AssetOutPoolID, pair.AssetOut)
+		apr, _ = k.GetBorrowAPRByAssetID(ctx, pair.AssetOutPoolID, pair.AssetOut, before.IsStableBorrow)
+	}); p || rerr != nil || rr.IsNil() || apr.IsNil() {
+		e.tr.Count("ext:reserveRateErr")
+		return "-"
+	}
+	rates := ":" + apr.BigInt().String() + ":" + rr.BigInt().String()
 	resBefore := sdk.ZeroDec()
 	if tr, f := k.GetBorrowInterestTracker(ctx, borrowID); f {
 		resBefore = tr.ReservePoolInterest
@@ -364,7 +426,7 @@ func (e *c08Env) extB(ctx sdk.Context, borrowID uint64) string {
 	panicked, _ := try(func() { _, _, err = k.IterateBorrow(ctx, borrowID) })
 	if panicked {
 		e.tr.Count("ext:iterBorrowPanic")
-		return "!"
+		return "!" + rates
 	}
 	if err != nil {
 		e.tr.Count("ext:iterBorrowErr")
@@ -377,7 +439,7 @@ func (e *c08Env) extB(ctx sdk.Context, borrowID uint64) string {
 	if dI.IsPositive() {
 		e.tr.Count("ext:interest>0")
 	}
-	return dI.BigInt().String() + ":" + dR.BigInt().String()
+	return dI.BigInt().String() + ":" + dR.BigInt().String() + rates
 }
 
 func (e *c08Env) probe() sdk.Context { c, _ := e.ctx.CacheContext(); return c }
@@ -440,33 +502,33 @@ func (e *c08Env) emit(name string, outcome string, args ...string) {
 
 func (e *c08Env) opLend(usr c08Acct, asset uint64, denom string, amt sdk.Int, pool, app uint64) string {
 	k := e.app.LendKeeper
-	r := sdk.ZeroInt()
+	r := "0:0"
 	if id, found := k.GetLendIDForAssetIDPoolID(e.ctx, usr.addr.String(), asset, pool); found && k.HasLendForAddressByAsset(e.ctx, usr.addr.String(), asset, pool) {
-		r = e.reward(e.ctx, id)
+		r = e.rewardStr(e.ctx, id)
 	}
 	out := e.deliver(&lendtypes.MsgLend{Lender: usr.addr.String(), AssetId: asset, Amount: sdk.Coin{Denom: denom, Amount: amt}, PoolId: pool, AppId: app})
-	e.emit("lend", out, u(usr.num), u(asset), e.did(denom), amt.String(), u(pool), u(app), r.String())
+	e.emit("lend", out, u(usr.num), u(asset), e.did(denom), amt.String(), u(pool), u(app), r)
 	return out
 }
 
 func (e *c08Env) opDeposit(usr c08Acct, lendID uint64, denom string, amt sdk.Int) string {
-	r := e.reward(e.ctx, lendID)
+	r := e.rewardStr(e.ctx, lendID)
 	out := e.deliver(&lendtypes.MsgDeposit{Lender: usr.addr.String(), LendId: lendID, Amount: sdk.Coin{Denom: denom, Amount: amt}})
-	e.emit("deposit", out, u(usr.num), u(lendID), e.did(denom), amt.String(), r.String())
+	e.emit("deposit", out, u(usr.num), u(lendID), e.did(denom), amt.String(), r)
 	return out
 }
 
 func (e *c08Env) opWithdraw(usr c08Acct, lendID uint64, denom string, amt sdk.Int) string {
-	r := e.reward(e.ctx, lendID)
+	r := e.rewardStr(e.ctx, lendID)
 	out := e.deliver(&lendtypes.MsgWithdraw{Lender: usr.addr.String(), LendId: lendID, Amount: sdk.Coin{Denom: denom, Amount: amt}})
-	e.emit("withdraw", out, u(usr.num), u(lendID), e.did(denom), amt.String(), r.String())
+	e.emit("withdraw", out, u(usr.num), u(lendID), e.did(denom), amt.String(), r)
 	return out
 }
 
 func (e *c08Env) opCloseLend(usr c08Acct, lendID uint64) string {
-	r := e.reward(e.ctx, lendID)
+	r := e.rewardStr(e.ctx, lendID)
 	out := e.deliver(&lendtypes.MsgCloseLend{Lender: usr.addr.String(), LendId: lendID})
-	e.emit("closeLend", out, u(usr.num), u(lendID), r.String())
+	e.emit("closeLend", out, u(usr.num), u(lendID), r)
 	return out
 }
 
@@ -502,12 +564,12 @@ func (e *c08Env) opBorrow(usr c08Acct, lendID, pairID uint64, stable bool, in, o
 
 func (e *c08Env) opBorrowAlternate(usr c08Acct, asset, pool uint64, in sdk.Coin, pairID uint64, stable bool, out sdk.Coin, app uint64) string {
 	k := e.app.LendKeeper
-	r := sdk.ZeroInt()
+	r := "0:0"
 	e1, e2 := "-", "-"
 	c := e.probe()
 	try(func() {
 		if id, found := k.GetLendIDForAssetIDPoolID(c, usr.addr.String(), asset, pool); found && k.HasLendForAddressByAsset(c, usr.addr.String(), asset, pool) {
-			r = e.reward(c, id)
+			r = e.rewardStr(c, id)
 			if err := k.DepositAsset(c, usr.addr.String(), id, in); err != nil {
 				return
 			}
@@ -516,7 +578,7 @@ func (e *c08Env) opBorrowAlternate(usr c08Acct, asset, pool uint64, in sdk.Coin,
 		e1, e2 = e.borrowExt(c, usr, pairID, sdk.Coin{Denom: e.denomOf[rates.CAssetID], Amount: in.Amount})
 	})
 	res := e.deliver(&lendtypes.MsgBorrowAlternate{Lender: usr.addr.String(), AssetId: asset, PoolId: pool, AmountIn: in, PairId: pairID, IsStableBorrow: stable, AmountOut: out, AppId: app})
-	e.emit("borrowAlt", res, u(usr.num), u(asset), u(pool), e.did(in.Denom), in.Amount.String(), u(pairID), c08b(stable), e.did(out.Denom), out.Amount.String(), u(app), r.String(), e1, e2)
+	e.emit("borrowAlt", res, u(usr.num), u(asset), u(pool), e.did(in.Denom), in.Amount.String(), u(pairID), c08b(stable), e.did(out.Denom), out.Amount.String(), u(app), r, e1, e2)
 	return res
 }
 
@@ -552,7 +614,7 @@ func (e *c08Env) opRepayWithdraw(usr c08Acct, borrowID uint64) string {
 	k := e.app.LendKeeper
 	c := e.probe()
 	ext := e.extB(c, borrowID)
-	r := sdk.ZeroInt()
+	r := "0:0"
 	c2 := e.probe()
 	try(func() {
 		b, found := k.GetBorrow(c2, borrowID)
@@ -560,11 +622,11 @@ func (e *c08Env) opRepayWithdraw(usr c08Acct, borrowID uint64) string {
 			return
 		}
 		if err := k.CloseBorrow(c2, usr.addr.String(), borrowID); err == nil {
-			r = e.reward(c2, b.LendingID)
+			r = e.rewardStr(c2, b.LendingID)
 		}
 	})
 	res := e.deliver(&lendtypes.MsgRepayWithdraw{Borrower: usr.addr.String(), BorrowId: borrowID})
-	e.emit("repayWithdraw", res, u(usr.num), u(borrowID), ext, r.String())
+	e.emit("repayWithdraw", res, u(usr.num), u(borrowID), ext, r)
 	return res
 }
 
@@ -585,8 +647,7 @@ func (e *c08Env) opCalc(usr c08Acct) string {
 			}
 		}
 		for _, m := range maps {
-			r := e.reward(c, m.LendId)
-			lparts = append(lparts, u(m.LendId)+"="+r.String())
+			lparts = append(lparts, u(m.LendId)+"="+e.rewardStr(c, m.LendId))
 			_ = k.MsgCalculateLendRewards(c, usr.addr.String(), m.LendId)
 		}
 	})
@@ -607,6 +668,24 @@ func (e *c08Env) opFundReserve(usr c08Acct, asset uint64, c sdk.Coin) string {
 	return res
 }
 
+// opSetKill turns the ESM kill switch of an app on or off (what the esm module stores on a passed proposal).
+func (e *c08Env) opSetKill(app uint64, on bool) {
+	if err := e.app.EsmKeeper.SetKillSwitchData(e.ctx, esmtypes.KillSwitchParams{AppId: app, BreakerEnable: on}); err != nil {
+		e.t.Fatal(err)
+	}
+	e.emit("setKill", "ok", u(app), c08b(on))
+}
+
+// opSetDepreciated lists a pool in the depreciation record (gov proposal handler AddPoolDepreciate); the flag of the entry is
+// drawn at random: IsPoolDepreciated only looks at the pool id.
+func (e *c08Env) opSetDepreciated(pool uint64) {
+	err := e.app.LendKeeper.AddPoolDepreciate(e.ctx, lendtypes.PoolDepreciate{IndividualPoolDepreciate: []lendtypes.IndividualPoolDepreciate{{PoolID: pool, IsPoolDepreciated: e.rng.Chance(50)}}})
+	if err != nil {
+		e.t.Fatal(err)
+	}
+	e.emit("setDepreciated", "ok", u(pool))
+}
+
 func (e *c08Env) opSetPrice(asset, twa uint64) {
 	e.setPrice(asset, twa)
 	e.emit("setPrice", "ok", u(asset), u(twa))
@@ -620,6 +699,16 @@ func (e *c08Env) opLiquidate(borrowID uint64) bool {
 	if !found || before.IsLiquidated {
 		return false
 	}
+	// the rates CalculateBorrowInterestForLiquidation uses (inputs of the model's accrual), read before the call
+	rates := "-"
+	try(func() {
+		pair, _ := k.GetLendPair(e.ctx, before.PairID)
+		rr, err := k.GetReserveRate(e.ctx, pair.AssetOutPoolID, pair.AssetOut)
+		apr, err2 := k.GetBorrowAPRByAssetID(e.ctx, pair.AssetOutPoolID, pair.AssetOut, before.IsStableBorrow)
+		if err == nil && err2 == nil {
+			rates = apr.BigInt().String() + ":" + rr.BigInt().String()
+		}
+	})
 	cctx, write := e.ctx.CacheContext()
 	var err error
 	panicked, pmsg := try(func() { err = e.app.NewliqKeeper.LiquidateIndividualBorrow(cctx, borrowID, "", false) })
@@ -639,7 +728,7 @@ func (e *c08Env) opLiquidate(borrowID uint64) bool {
 		return false
 	}
 	write()
-	e.emit("handover", "ok", u(borrowID), after.InterestAccumulated.BigInt().String())
+	e.emit("handover", "ok", u(borrowID), after.InterestAccumulated.BigInt().String(), rates)
 	return true
 }
 
@@ -1302,6 +1391,48 @@ func c08CorpusTwinLends(t *testing.T, tr *Trace, rng *Rng) {
 	e.opCloseLend(u1, 1)
 }
 
+// c08CorpusGuards — directed coverage: with the kill switch of the app on, every position message is refused and nothing changes;
+// with a pool depreciated, deposits / pledges / draws / new lends and borrows on it are refused while repay, withdraw and close work.
+func c08CorpusGuards(t *testing.T, tr *Trace, rng *Rng) {
+	e := c08Setup(t, tr, rng, 0)
+	e.cfgLines()
+	tr.Count("corpus")
+	a1, a2 := e.base[0], e.base[1]
+	u1, u2 := e.users[0], e.users[1]
+	n := func(x int64) sdk.Int { return sdk.NewInt(x) }
+	cA1 := func(x int64) sdk.Coin { return sdk.Coin{Denom: e.cDenom(a1), Amount: n(x)} }
+	e.opLend(u1, a1, e.denomOf[a1], n(2_000_000_000), 1, e.appOK) // lend 1
+	e.opLend(u2, a2, e.denomOf[a2], n(5_000_000_000), 1, e.appOK) // lend 2
+	e.opBorrow(u1, 1, 3, false, cA1(1_000_000_000), e.coin(a2, n(100_000_000)))
+	e.advance(86400)
+	e.opSetKill(e.appOK, true)
+	e.opLend(u2, a1, e.denomOf[a1], n(1_000_000), 1, e.appOK)
+	e.opDeposit(u1, 1, e.denomOf[a1], n(1_000_000))
+	e.opWithdraw(u1, 1, e.denomOf[a1], n(1_000_000))
+	e.opCloseLend(u2, 2)
+	e.opBorrow(u2, 2, 2, false, sdk.Coin{Denom: e.cDenom(a2), Amount: n(1_000_000_000)}, e.coin(a1, n(10_000_000)))
+	e.opBorrowAlternate(u2, a1, 1, e.coin(a1, n(10_000_000)), 3, false, e.coin(a2, n(1_000_000)), e.appOK)
+	e.opDepositBorrow(u1, 1, cA1(1_000_000))
+	e.opDraw(u1, 1, e.coin(a2, n(1_000_000)))
+	e.opRepay(u1, 1, e.coin(a2, n(1_000_000)))
+	e.opCloseBorrow(u1, 1)
+	e.opRepayWithdraw(u1, 1)
+	e.opCalc(u1)
+	e.opSetKill(e.appOK, false)
+	e.opDraw(u1, 1, e.coin(a2, n(1_000_000)))
+	e.opSetDepreciated(1)
+	e.opLend(u2, a1, e.denomOf[a1], n(1_000_000), 1, e.appOK)
+	e.opDeposit(u1, 1, e.denomOf[a1], n(1_000_000))
+	e.opDepositBorrow(u1, 1, cA1(1_000_000))
+	e.opDraw(u1, 1, e.coin(a2, n(1_000_000)))
+	e.opBorrow(u2, 2, 2, false, sdk.Coin{Denom: e.cDenom(a2), Amount: n(1_000_000_000)}, e.coin(a1, n(10_000_000)))
+	e.opRepay(u1, 1, e.coin(a2, n(1_000_000)))
+	e.opWithdraw(u1, 1, e.denomOf[a1], n(1_000_000))
+	e.opCalc(u1)
+	e.opCloseBorrow(u1, 1)
+	e.opCloseLend(u1, 1)
+}
+
 // ---------------------------------------------------------------------------------------------- test
 
 func TestC08(t *testing.T) {
@@ -1311,6 +1442,7 @@ func TestC08(t *testing.T) {
 	c08CorpusForeignPair(t, tr, rng)
 	c08CorpusHandover(t, tr, rng)
 	c08CorpusTwinLends(t, tr, rng)
+	c08CorpusGuards(t, tr, rng)
 	seqs := scale(24, 300)
 	maxOps := scale(90, 160)
 	for s := 0; s < seqs; s++ {
@@ -1336,7 +1468,18 @@ func TestC08(t *testing.T) {
 			}
 		}
 		nops := rng.Range(maxOps/2, maxOps)
+		killedNow := map[uint64]bool{}
+		killedFor := 0
 		for o := 0; o < nops; o++ {
+			if killedNow[e.appOK] {
+				killedFor++
+				if killedFor > 6 {
+					// switch it off again so that the rest of the history is not all rejections
+					e.opSetKill(e.appOK, false)
+					delete(killedNow, e.appOK)
+					killedFor = 0
+				}
+			}
 			switch rng.Intn(10) {
 			case 0:
 			case 1, 2:
@@ -1384,6 +1527,20 @@ func TestC08(t *testing.T) {
 				e.genPrice()
 			case p < 98:
 				e.genLiquidate()
+			case p < 99 && rng.Chance(40):
+				// emergency controls: the kill switch is toggled (it stays on for the next few messages), late in a history a pool
+				// may be depreciated for good
+				if rng.Chance(75) {
+					_, on := killedNow[e.appOK]
+					e.opSetKill(e.appOK, !on)
+					if on {
+						delete(killedNow, e.appOK)
+					} else {
+						killedNow[e.appOK] = true
+					}
+				} else if o > nops/2 {
+					e.opSetDepreciated(uint64(rng.Range(1, 2)))
+				}
 			case p < 99:
 				usr := e.user()
 				a := e.base[rng.Intn(4)]
